@@ -509,15 +509,79 @@ func firstDCPhase() func(R *res.Result) {
 	if g.Physical == 0 {
 		return done
 	}
-	if !dclife.Join(s, "dc-first", 616161, 30*time.Second) {
+	// while dc-first starts, every etcd transaction that deletes a next-leader key takes 300 ms (a slow etcd at that
+	// moment), and a client keeps asking dc-first for timestamps: whatever it is given has to be above g already
+	origKV := s.GetClient().KV
+	s.GetClient().KV = &slowNextLeaderKV{KV: origKV}
+	var hmu sync.Mutex
+	var early *pdpb.Timestamp
+	hstop := make(chan struct{})
+	hdone := make(chan struct{})
+	go func() {
+		defer close(hdone)
+		for {
+			select {
+			case <-hstop:
+				return
+			default:
+			}
+			if l, err := am.HandleTSORequest("dc-first", 1); err == nil && (l.Physical < g.Physical || (l.Physical == g.Physical && l.Logical <= g.Logical)) {
+				hmu.Lock()
+				if early == nil {
+					early = &l
+				}
+				hmu.Unlock()
+			}
+			time.Sleep(time.Millisecond)
+		}
+	}()
+	joined := dclife.Join(s, "dc-first", 616161, 30*time.Second)
+	time.Sleep(400 * time.Millisecond)
+	close(hstop)
+	<-hdone
+	s.GetClient().KV = origKV
+	if !joined {
 		notes = append(notes, "first-dc phase incomplete: dc-first was not served within 30 s")
 		return done
 	}
 	counts["first-dc:probed"]++
+	if early != nil {
+		viols = append(viols, viol{"C05:local-not-above-earlier-global:allocator-serving-before-it-was-raised",
+			fmt.Sprintf("the Global timestamp (%d,%d) had been returned; while the Local allocator of the joining dc-first started (etcd slow at that moment) a client was given (%d,%d)", g.Physical, g.Logical, early.Physical, early.Logical),
+			map[string]interface{}{"global": []int64{g.Physical, g.Logical}, "local": []int64{early.Physical, early.Logical}}})
+		return done
+	}
 	if l, err := am.HandleTSORequest("dc-first", 1); err == nil && (l.Physical < g.Physical || (l.Physical == g.Physical && l.Logical <= g.Logical)) {
 		viols = append(viols, viol{"C05:local-not-above-earlier-global:first-dc-location-of-the-cluster",
 			fmt.Sprintf("a cluster without dc-locations returned the Global timestamp (%d,%d) (after a reset one hour ahead); then the first dc-location joined and its first Local timestamp is (%d,%d)", g.Physical, g.Logical, l.Physical, l.Logical),
 			map[string]interface{}{"global": []int64{g.Physical, g.Logical}, "local": []int64{l.Physical, l.Logical}}})
+	}
+	// the logical part of dc-first's memory is pushed beyond 18 bits by a batch that cannot be granted (it is refused, the
+	// counter has moved all the same until the next tick); a Global request right then has to see that memory as what it
+	// is: larger than its estimate
+	if fa, err := am.GetAllocator("dc-first"); err == nil {
+		for round := 0; round < 4 && len(viols) == 0; round++ {
+			l1, err := am.HandleTSORequest("dc-first", 5)
+			if err != nil {
+				continue
+			}
+			_, _, rawl, _, _ := tso.VerifState(fa)
+			bdone := make(chan struct{})
+			go func() {
+				am.HandleTSORequest("dc-first", uint32(int64(1<<18)-rawl+8))
+				close(bdone)
+			}()
+			time.Sleep(2 * time.Millisecond)
+			gg, gerr := am.HandleTSORequest(tso.GlobalDCLocation, 1)
+			<-bdone
+			counts["overflowed-local-memory:probed"]++
+			if gerr == nil && (gg.Physical < l1.Physical || (gg.Physical == l1.Physical && gg.Logical <= l1.Logical)) {
+				viols = append(viols, viol{"C05:global-not-above-earlier-local:local-memory-beyond-18-bits",
+					fmt.Sprintf("dc-first answered (%d,%d); a batch that cannot be granted pushed its logical counter beyond 18 bits; the Global request that followed was answered (%d,%d): not greater", l1.Physical, l1.Logical, gg.Physical, gg.Logical),
+					map[string]interface{}{"local": []int64{l1.Physical, l1.Logical}, "global": []int64{gg.Physical, gg.Logical}}})
+			}
+			time.Sleep(120 * time.Millisecond)
+		}
 	}
 	// two dc-locations whose names differ only by a path prefix ("r1/dc-slash" and "dc-slash"): two suffixes
 	if dclife.Join(s, "r1/dc-slash", 646464, 20*time.Second) && dclife.Join(s, "dc-slash", 656565, 20*time.Second) {
@@ -568,4 +632,36 @@ func firstDCPhase() func(R *res.Result) {
 		break
 	}
 	return done
+}
+
+// slowNextLeaderKV delays every transaction that deletes a next-leader key of an allocator by 300 ms.
+type slowNextLeaderKV struct{ clientv3.KV }
+
+type slowNextLeaderTxn struct {
+	clientv3.Txn
+	slow bool
+}
+
+func (k *slowNextLeaderKV) Txn(ctx context.Context) clientv3.Txn {
+	return &slowNextLeaderTxn{Txn: k.KV.Txn(ctx)}
+}
+func (t *slowNextLeaderTxn) If(cs ...clientv3.Cmp) clientv3.Txn { t.Txn = t.Txn.If(cs...); return t }
+func (t *slowNextLeaderTxn) Then(ops ...clientv3.Op) clientv3.Txn {
+	for _, o := range ops {
+		if o.IsDelete() && strings.Contains(string(o.KeyBytes()), "next-leader") {
+			t.slow = true
+		}
+	}
+	t.Txn = t.Txn.Then(ops...)
+	return t
+}
+func (t *slowNextLeaderTxn) Else(ops ...clientv3.Op) clientv3.Txn {
+	t.Txn = t.Txn.Else(ops...)
+	return t
+}
+func (t *slowNextLeaderTxn) Commit() (*clientv3.TxnResponse, error) {
+	if t.slow {
+		time.Sleep(300 * time.Millisecond)
+	}
+	return t.Txn.Commit()
 }
